@@ -430,6 +430,138 @@ theorem listed_mem {wf : Workflow} {res : List (Label × StepOut)} {p : Step × 
   | none => simp [hl] at he
   | some o => simp [hl] at he; subst he; exact ⟨hs, hl⟩
 
+/-! ### the fault-free corner is C01's sequential semantics -/
+
+theorem evalLogicF_lift (eval : EvalFn) (run : RunFn) (l : Label) (i : Option Nat) (act inputs) (logic : Logic) :
+    ∃ fo, (evalLogicF eval (liftRun run) l i act inputs logic).1 = .ans fo ∧
+      (⟨fo.res, fo.rid⟩ : StepOut) = (runLogic eval run l i act inputs logic).1 := by
+  cases logic with
+  | ref t => exact ⟨run t inputs, rfl, rfl⟩
+  | switch on cases dflt =>
+    simp only [evalLogicF, runLogic]
+    cases select eval on cases dflt act inputs with
+    | hit t => exact ⟨run t inputs, rfl, rfl⟩
+    | evalFail => exact ⟨_, rfl, rfl⟩
+    | badType => exact ⟨_, rfl, rfl⟩
+    | noMatch => exact ⟨_, rfl, rfl⟩
+
+theorem itemAnswers_lift (eval : EvalFn) (run : RunFn) (l : Label) (act inputs key logic) (cause : Bool) :
+    ∀ (i : Nat) (items : List JVal),
+      zipOK cause (itemAnswers eval (liftRun run) l act inputs key logic i items)
+        (items.map fun _ => Tag.done) = true ∧
+      zipOut (itemAnswers eval (liftRun run) l act inputs key logic i items) (items.map fun _ => Tag.done) =
+        (runItems eval run l act inputs key logic i items).map (·.1)
+  | _, [] => ⟨rfl, rfl⟩
+  | i, it :: rest => by
+    obtain ⟨fo, h1, h2⟩ := evalLogicF_lift eval run l (some i) act (setKey key it inputs) logic
+    obtain ⟨ih1, ih2⟩ := itemAnswers_lift eval run l act inputs key logic cause (i + 1) rest
+    simp only [itemAnswers, List.map_cons, zipOK, zipOut, runItems, h1, tagOK, Bool.true_and]
+    refine ⟨ih1, ?_⟩
+    rw [ih2]
+    simp only [taskOut, classify, FAns.out]
+    rw [h2]
+
+theorem depsDone_all_done (res : List (Label × StepOut)) (deps : List Label)
+    (h : ∀ d ∈ deps, d ∈ res.map (·.1)) :
+    depsDone (res.map fun p => (p.1, (Tag.done, p.2))) deps = some (depRes res deps) := by
+  induction deps with
+  | nil => rfl
+  | cons d rest ih =>
+    obtain ⟨o, ho⟩ := lookupL_isSome_of_mem (h d (by simp))
+    have hl : lookupL d (res.map fun p => (p.1, (Tag.done, p.2))) = some (Tag.done, o) := by
+      rw [lookupL_map_snd (fun o : StepOut => (Tag.done, o)) d res, ho]; rfl
+    simp only [depsDone, hl, ih (fun d' hd' => h d' (List.mem_cons_of_mem _ hd'))]
+    simp [depRes, ho]
+
+/-- with every task done the fault model's step is C01's `stepResult` -/
+theorem evalStep_fault_free (eval : EvalFn) (run : RunFn) (trig : JVal) (cause : Bool)
+    (dr : List (Label × StepRes)) (s : Step) :
+    (evalStep eval (liftRun run) trig cause (some dr) s
+      ⟨.done, match gate eval trig dr s with
+        | .each _ _ _ items => items.map fun _ => Tag.done
+        | _ => []⟩).ok = true ∧
+    (evalStep eval (liftRun run) trig cause (some dr) s
+      ⟨.done, match gate eval trig dr s with
+        | .each _ _ _ items => items.map fun _ => Tag.done
+        | _ => []⟩).out = (stepResult eval run trig dr s).1 := by
+  cases hg : gate eval trig dr s with
+  | done o => simp [evalStep, stepResult, hg, plainStep]
+  | single act inputs =>
+    obtain ⟨fo, h1, h2⟩ := evalLogicF_lift eval run s.label none act inputs s.logic
+    simp only [evalStep, stepResult, hg, h1, tagOK, List.isEmpty_nil, Bool.and_self, true_and]
+    simp only [taskOut, classify, FAns.out]
+    exact h2
+  | each act inputs key items =>
+    obtain ⟨-, -, -, -, -, -, -, -, -, hne⟩ := gate_each hg
+    obtain ⟨z1, z2⟩ := itemAnswers_lift eval run s.label act inputs key s.logic
+      (cause || (items.map fun _ => Tag.done).any fun t => decide (t = Tag.raised)) 0 items
+    cases items with
+    | nil => exact absurd rfl hne
+    | cons it rest =>
+      simp only [evalStep, stepResult, hg]
+      simp only [List.map_cons] at z1 z2 ⊢
+      exact ⟨z1, by rw [z2]⟩
+
+theorem runStepsF_fault_free (eval : EvalFn) (run : RunFn) (trig : JVal) (cause : Bool) :
+    ∀ (steps : List Step) (t : Trace) (acc : RunEval),
+      wfSteps (t.results.map (·.1)) steps = true →
+      acc.ok = true → acc.pre = t.results.map (fun p => (p.1, (Tag.done, p.2))) →
+      (runStepsF eval (liftRun run) trig cause steps (doneTags eval run trig steps t) acc).ok = true ∧
+      (runStepsF eval (liftRun run) trig cause steps (doneTags eval run trig steps t) acc).pre =
+        (runSteps eval run trig steps t).results.map (fun p => (p.1, (Tag.done, p.2)))
+  | [], t, acc, _, hok, hpre => ⟨by simpa [runStepsF, doneTags] using hok, by simpa [runStepsF, doneTags, runSteps] using hpre⟩
+  | s :: rest, t, acc, hwf, hok, hpre => by
+    obtain ⟨hdeps, -, hrest⟩ := wfSteps_cons hwf
+    have hdd : depsDone acc.pre s.deps = some (depRes t.results s.deps) := by
+      rw [hpre]; exact depsDone_all_done t.results s.deps hdeps
+    obtain ⟨e1, e2⟩ := evalStep_fault_free eval run trig cause (depRes t.results s.deps) s
+    simp only [doneTags, runStepsF, runSteps, hdd]
+    apply runStepsF_fault_free eval run trig cause rest
+    · simpa using hrest
+    · simp only [hok, Bool.true_and, decide_true, Bool.and_true]
+      exact e1
+    · simp only [hpre, List.map_append, List.map_cons, List.map_nil]
+      exact congrArg (fun o => List.map (fun p : Label × StepOut => (p.1, (Tag.done, p.2))) t.results ++
+        [(s.label, (Tag.done, o))]) e2
+
+theorem stepCondsF_all_done (res : List (Label × StepOut)) (steps : List Step) :
+    (steps.flatMap fun s => match lookupL s.label (res.map fun p => (p.1, (Tag.done, p.2))) with
+      | some e => condsOfStep s e
+      | none => []) =
+    stepConds (steps.filterMap fun s => (lookupL s.label res).map fun o => (s, o)) := by
+  induction steps with
+  | nil => rfl
+  | cons s rest ih =>
+    rw [List.flatMap_cons, List.filterMap_cons, ih,
+      lookupL_map_snd (fun o : StepOut => (Tag.done, o)) s.label res]
+    cases hl : lookupL s.label res with
+    | none => simp
+    | some o =>
+      simp only [Option.map_some, stepConds, List.filterMap_cons, condsOfStep]
+      cases s.cond <;> simp
+
+/-- a time-out before anything completed is always a possible outcome -/
+theorem evalStep_cancelled_ok (eval : EvalFn) (frun : FRun) (trig : JVal)
+    (dd : Option (List (Label × StepRes))) (s : Step) :
+    (evalStep eval frun trig true dd s ⟨.cancelled, []⟩).ok = true := by
+  cases dd with
+  | none => rfl
+  | some dr =>
+    simp only [evalStep]
+    cases gate eval trig dr s with
+    | done o => rfl
+    | single act inputs => rfl
+    | each act inputs key items => rfl
+
+theorem runStepsF_all_cancelled (eval : EvalFn) (frun : FRun) (trig : JVal) :
+    ∀ (steps : List Step) (acc : RunEval), acc.ok = true →
+      (runStepsF eval frun trig true steps (steps.map fun s => (s.label, ⟨.cancelled, []⟩)) acc).ok = true
+  | [], acc, h => by simpa [runStepsF] using h
+  | s :: rest, acc, h => by
+    simp only [List.map_cons, runStepsF]
+    apply runStepsF_all_cancelled eval frun trig rest
+    simp [h, evalStep_cancelled_ok]
+
 /-! ## 4. one ResourceFunction evaluation under a fault -/
 
 section rf
